@@ -14,7 +14,8 @@ def run(rep):
                        (["ACHRSampler.sample"], CX.HOOKS_S), (["mp_init", "_sample_chain"], CX.HOOKS_C),
                        (["OptGPSampler.sample"], CX.HOOKS_O), (["sampling.sample"], CX.HOOKS_D),
                        (["HRSampler.validate"], CX.HOOKS_V), (["HRSampler.batch"], CX.HOOKS_B),
-                       (["HRSampler.__init__"], CH.HOOKS)], lemmas=CH.lemmas, explanation=(
+                       (["HRSampler.__init__"], CH.HOOKS), (["ACHRSampler.__init__"], CH.HOOKS_SUB),
+                       (["OptGPSampler.__init__"], CH.HOOKS_OPT)], lemmas=CH.lemmas, explanation=(
         "Deductive part (control/data flow only, through the opaque array algebra - numpy operations are uninterpreted functions): "
         "sampling.core.step is proved, on every one of its return paths (direct, or through the recursive retry under its own "
         "contract), to return only a point p for which the guard `not any(sampler._bounds_dist(p) < -sampler.bounds_tol)` was evaluated "
@@ -67,14 +68,23 @@ def run(rep):
         "of reaction i)), the two positions are different valid positions, and the column is labelled with reaction i's id (hypothesis: "
         "no method between the constructor and sample writes fwd_idx / rev_idx / model); and what sampling.sample assumes of a new sampler "
         "(thinning, n_samples = 0, private copy with a well-formed reaction list, nproj >= 1 given one solver variable) follows from the "
-        "constructor's post-condition - the subclass constructors (ACHRSampler / OptGPSampler.__init__: super().__init__ + warmup) stay "
-        "assumed (HRSampler.__init__@samplers)."),
+        "constructor's post-condition. The SUBCLASS constructors are proved too, with super().__init__(model, thinning, nproj=nproj, seed=seed) "
+        "applied by the proved contract at the call site (so every clause above holds for the new ACHR / OptGP sampler, the arguments "
+        "being passed on unchanged) and generate_fva_warmup() a RECORDED call (sets warmup / n_warmup or raises ValueError; made once, after "
+        "all HRSampler fields exist, none of fwd_idx / rev_idx / model / problem / _seed written afterwards): ACHRSampler.__init__ sets prev = "
+        "center = warmup.mean(axis=0) and calls np.random.seed exactly once with the STORED self._seed (the reproducibility clause); "
+        "OptGPSampler.__init__ sets processes = the argument, or configuration.processes when None, center = shared_np_array((len("
+        "model.variables),), warmup.mean(axis=0)) and does NOT seed numpy (every chain seeds itself, see _sample_chain). sampling.sample's "
+        "dispatch hook still creates the new sampler by the assumed interface contract HRSampler.__init__@samplers (its facts are the ones "
+        "proved here; the lemma above)."),
         trusted=["numpy operations are pure deterministic functions of their arguments (opaque algebra)", "floating point",
                  "SVD null space", "multiprocessing.Pool.map is ordered and runs each task once in a worker initialised on a private copy "
                  "(assumed contract Pool.map)", "float division n / processes and np.ceil are exact (operands below 2**53)",
                  "two arrays that differ in no element are the same point (NaN-free; used for _reproject)",
-                 "the SUBCLASS constructors ACHRSampler.__init__ / OptGPSampler.__init__ (assumed contract HRSampler.__init__@samplers; HRSampler.__init__ "
-                 "itself is proved)",
+                 "the sampler object sampling.sample's dispatch hook creates (assumed interface contract HRSampler.__init__@samplers: thinning / processes "
+                 "as given, n_samples = 0, nproj >= 1, private copy with a well-formed reaction list - each proved for the three constructors in "
+                 "contracts/c16_hrinit.py, nproj >= 1 given one solver variable)",
+                 "generate_fva_warmup sets warmup / n_warmup or raises ValueError (recorded call); configuration.processes, shared_np_array opaque",
                  "the shape of model.copy() for the sampler: new object, well-formed reactions attached to a model, solver in step (forward / reverse "
                  "variables are members of copy.variables), distinct variable objects (assumed contract Model.copy@hrinit)",
                  "np.array(<list of ints>)[i] = list[i] (assumed contract numpy.array@intlist); A[:, idx] selects column idx[i] as column i and "
